@@ -20,6 +20,8 @@ type Accum struct {
 	Addend  ast.Expr
 	Matched bool
 	How     string
+	// Reversed: L = Y.Add(L) — the sum takes the addend's precision, not its own
+	Reversed bool
 }
 
 func isAmountMethod(fn *types.Func, names ...string) bool {
@@ -153,6 +155,12 @@ func FindAccums(p *core.Program, fd *core.FuncDecl) []Accum {
 						acc.Dest = nx.Lhs[0]
 					}
 				}
+			}
+			if !self && fn.Name() == "Add" && sameLoc(info, dest, call.Args[0]) && !sameLoc(info, dest, recv) {
+				// operands swapped: num.Amount.Add keeps the receiver's exponent
+				acc.Addend, acc.Reversed, acc.How = recv, true, "operands swapped"
+				out = append(out, acc)
+				continue
 			}
 			if !self {
 				continue
@@ -374,7 +382,7 @@ func accumulatorRule(c *core.Ctx, rule string, pkgs []string) {
 				key := fmt.Sprintf("%s#%s%d:%s", fd.Name(), strings.ToLower(a.Op), i+1, types.ExprString(a.Dest))
 				ok := a.Matched
 				how := a.How
-				if !ok {
+				if !ok && !a.Reversed {
 					// idiom: matched earlier in the same iteration against a sibling of the addend (same root object)
 					if why := matchedAgainstSibling(info, fd, a); why != "" {
 						ok, how = true, why
@@ -383,6 +391,11 @@ func accumulatorRule(c *core.Ctx, rule string, pkgs []string) {
 				if ok {
 					c.Ob(rule, key, a.Assign.Pos(), true, "")
 					c.Note("%s: %s", key, how)
+					continue
+				}
+				if a.Reversed {
+					c.Ob(rule, key, a.Assign.Pos(), false,
+						fmt.Sprintf("%s adds the running sum to the addend (%s.Add(%s)) instead of the addend to the sum: Amount.Add keeps the receiver's exponent, so the sum silently takes each addend's precision and the precision chosen for the sum (rounding rule) is lost", fd.Name(), types.ExprString(a.Addend), types.ExprString(a.Dest)))
 					continue
 				}
 				c.Ob(rule, key, a.Assign.Pos(), false,
